@@ -15,7 +15,15 @@ na = []
 for p in props:
     pid = p["id"]
     has_rule = os.path.exists(os.path.join(VERIF, "sa", "rules", pid + ".py"))
-    c = getattr(importlib.import_module("sa.rules." + pid), "CLAIM", None) if has_rule else None
+    c = None
+    if has_rule:
+        try:
+            c = getattr(importlib.import_module("sa.rules." + pid), "CLAIM", None)
+        except Exception as e:  # a rule module under construction is not registered
+            print("skipping %s: %s" % (pid, e))
+    only = os.environ.get("VERIF_MANIFEST_ONLY")
+    if only and pid not in only.split(","):
+        c = None
     if c is not None:
         checks.append({
             "property_id": pid,
